@@ -919,9 +919,14 @@ func (w *world) runCase(c *txCase, commit bool) (admit, exec string) {
 		exec = "panic:" + er.site
 	}
 	if erF.panicked != er.panicked || (er.panicked && erF.site != er.site) {
-		run.Fail("the block factory's executor and the chain service's executor differ on the same transaction and state: "+outName(erF)+" vs "+outName(er),
-			replay{World: w.worldName(), Setup: append([]string{}, w.setup...), BlockNo: w.blockNo, Fork: w.fv, Cons: c.cons, Signer: c.who,
-				Rcpt: string(c.rcpt), Type: tx.Body.Type.String(), Payload: string(c.payload), Stage: "execution", Panic: erF.msg + " / " + er.msg, Site: erF.site + " / " + er.site})
+		k := "modes-differ/" + erF.site + "/" + er.site
+		reported[k]++
+		run.Count("finding:" + k)
+		if reported[k] == 1 {
+			run.Fail("the block factory's executor and the chain service's executor differ on the same transaction and state: "+outName(erF)+" vs "+outName(er),
+				replay{World: w.worldName(), Setup: append([]string{}, w.setup...), BlockNo: w.blockNo, Fork: w.fv, Cons: c.cons, Signer: c.who,
+					Rcpt: string(c.rcpt), Type: tx.Body.Type.String(), Payload: string(c.payload), Stage: "execution", Panic: erF.msg + " / " + er.msg, Site: erF.site + " / " + er.site})
+		}
 	}
 	nontrivial := admit == "ok" || strings.HasPrefix(admit, "panic") || strings.HasPrefix(exec, "panic")
 	run.Op(op, "adm="+admit+" exec="+exec, nontrivial)
@@ -960,6 +965,9 @@ func (w *world) runCase(c *txCase, commit bool) (admit, exec string) {
 		} else {
 			run.Count("exec-panic-of-non-admitted-tx")
 		}
+	}
+	if erF.panicked && !er.panicked && admit == "ok" {
+		report(run, "an admitted transaction panics in block production (block factory mode) at "+erF.site+": "+erF.msg, "production", erF, mk("production", erF))
 	}
 	if commit && !er.panicked && er.err == nil {
 		w.commit(bs)
